@@ -136,7 +136,7 @@ theorem finishIn_not_err (s : AState ρ σ) (mask : List Bool) (fuel : Nat) (e :
   unfold AState.finishIn
   simp only []
   split
-  · split <;> simp
+  · split <;> (try split) <;> simp
   · split
     · exact faultOutcome_not_err _ e
     · simp
